@@ -876,8 +876,15 @@ static size_t safec_etoa(out_fct_type out, const char *funcname, char *buffer,
              (1023ULL << 52U); // drop the exponent so conv.F is now in [1,2)
     // now approximate log10 from the log2 integer part and an expansion of ln
     // around 1.5
-    expval = (int)(0.1760912590558 + exp2 * 0.301029995663981 +
-                   (conv.F - 1.5) * 0.289529654602168);
+    {
+        // the estimate is never below the true log10: take its floor, the
+        // conversion to int alone would round negative exponents towards zero
+        const double e10 = 0.1760912590558 + exp2 * 0.301029995663981 +
+                           (conv.F - 1.5) * 0.289529654602168;
+        expval = (int)e10;
+        if (e10 < 0 && e10 != (double)expval)
+            expval--;
+    }
     // now we want to compute 10^expval but we want to be sure it won't overflow
     exp2 = (int)(expval * 3.321928094887362 + 0.5);
     {
